@@ -192,3 +192,10 @@ Theorem C20_premises_satisfiable :
   desc_nonneg 1 [2]%R.
 Proof. exact member_premises_example. Qed.
 Print Assumptions C20_premises_satisfiable.
+
+(* the functions of this property whose Gallina counterpart is hand-written (or that only the oracles reach) still read, statement by statement, as they did when
+   the model was last validated against them (Gen/T9text.v regenerated from the source on every run; Proofs/Text_C20.v holds the validated text) *)
+From XV Require Gen.T9text Proofs.Text_C20.
+Theorem C20_hand_modelled_functions_read_as_validated : Text_C20.all_frozen.
+Proof. exact Text_C20.all_frozen_holds. Qed.
+Print Assumptions C20_hand_modelled_functions_read_as_validated.
